@@ -54,6 +54,13 @@ def lemmas(tier):
                     meta={"site": "%s vs unrelated %s" % (name, kn)},
                 )
             )
+    six = four + [("e", "int"), ("f", "int")]
+    for op in ("lt", "le", "gt", "ge", "eq", "ne"):
+        for which in (0, 1):
+            out.append(xh.Lemma("opmut_%s_%d" % (op, which), six, ["return V.op_agrees_after_assignment(%r, a, b, c, d, e, f, %d)" % (op, which)], pre=_pre("abcdef"), meta={"site": "Position %s vs tuple order after the %s operand was compared and then assigned new line/character" % (op, ("left", "right")[which])}))
+    for k, name in ((1, "Range"), (2, "Location")):
+        for which in (0, 1):
+            out.append(xh.Lemma("eqmut_%d_%d" % (k, which), six, ["return V.container_eq_after_assignment(%d, a, b, c, d, e, f, %d)" % (k, which)], pre=_pre("abcdef"), meta={"site": "%s == / != after a nested %s position was compared and then assigned" % (name, ("start", "end")[which])}))
     for k, name in ((1, "Range"), (2, "Location")):
         out.append(xh.Lemma("unordered_%d" % k, four, ["return V.unordered_same_type(%d, a, b, c, d)" % k], pre=_pre("abcd"), meta={"site": "%s has no order" % name}))
     return out
@@ -309,7 +316,7 @@ def check(tier):
     repr_queries(chk)
     fns = [L.Position.__eq__, L.Position.__gt__, L.Position.__lt__, L.Position.__le__, L.Position.__ge__, L.Position.__repr__, L.Range.__eq__, L.Range.__repr__, L.Location.__eq__, L.Location.__repr__]
     chk.ev.coverage["functions_encoded"] = [evidence.fn_ref(f) for f in fns]
-    chk.ev.coverage["bounds"] = {"line/character": "all ints in [0, 2^31-1] (z3 Int)", "uri": "len <= %d in the equality lemma; unconstrained z3 String in the repr query" % (8 if tier == "quick" else 16), "unrelated operands": "int (unbounded), str (len <= 6), tuple, list, None, instances of the two other classes"}
+    chk.ev.coverage["bounds"] = {"line/character": "all ints in [0, 2^31-1] (z3 Int)", "uri": "len <= %d in the equality lemma; unconstrained z3 String in the repr query" % (8 if tier == "quick" else 16), "histories": "one earlier comparison (all six operators) followed by one assignment of line and character to either operand / nested position", "unrelated operands": "int (unbounded), str (len <= 6), tuple, list, None, instances of the two other classes"}
     chk.ev.coverage["outside_bounds"] = ["operands that are subclasses of Position/Range/Location", "uri longer than the bound in the equality lemma"]
     chk.ev.coverage["rule"] = "one lemma per operator / per (class x unrelated operand kind); non-trivial = reachability twin violated"
     chk.ev.coverage["explanation"] = (
